@@ -17,3 +17,12 @@ package json
 //@ func (scopeJSON) ToActionNode
 //@   loop 1
 //@     invariant len(es) == len(s.Entities) && !isnil(es)
+
+// Decoding the same bytes gives the same AST (C14: re-encoding it is then byte-identical): the
+// entries of a record literal are produced in key order, not in the iteration order of the Go
+// map encoding/json filled.
+//@ func (recordJSON) ToNode
+//@   props C14 C10
+//@   assert before "return ast.Record(nodes), nil" key_order: forall a int, b int :: (0 <= a && a < b && b < len(nodes)) ==> strLess(string(nodes[a].Key), string(nodes[b].Key))
+//@   loop 1
+//@     invariant len(nodes) == $i && (forall m int :: (0 <= m && m < $i) ==> string(nodes[m].Key) == keys[m])
